@@ -2,6 +2,10 @@ import ModVerif.Drv.MainLoop
 import ModVerif.Drv.Zip
 import ModVerif.Drv.Dirhash
 import ModVerif.Drv.GenZip
+import ModVerif.Drv.GenModule
 open ModVerif.Drv
 
-def main : IO Unit := runMain [("zip", Zip.handle), ("dirhash", Dirhash.handle), ("gzip", GenZip.handle)]
+def gzip : Handler := fun op args =>
+  (GenZip.handle op args) <|> (GenZip.handleCf Zip.parseFiles Zip.realEnv.cfp GenModule.equalFoldI op args)
+
+def main : IO Unit := runMain [("zip", Zip.handle), ("dirhash", Dirhash.handle), ("gzip", gzip)]
